@@ -232,6 +232,11 @@ CATALOG: List[Cfg] = [
        "reward_fn=R.knapsack.SparseReward())", keys_quick=2, keys_thorough=6, horizon="5"),
     _c("knapsack-4-tight", "knapsack", "Knapsack(G.knapsack.RandomGenerator(4, 0.1))", kind="awkward",
        keys_quick=2, keys_thorough=6, horizon="4"),
+    # everything fits with more than one unit of budget to spare: the episode must end when the last item is packed
+    _c("knapsack-3-roomy", "knapsack", "Knapsack(G.knapsack.RandomGenerator(3, 5.0))", kind="awkward",
+       keys_quick=2, keys_thorough=4, horizon="3"),
+    _c("knapsack-3-roomy-sparse", "knapsack", "Knapsack(G.knapsack.RandomGenerator(3, 5.0), "
+       "reward_fn=R.knapsack.SparseReward())", kind="awkward", keys_quick=2, keys_thorough=4, horizon="3"),
     _c("knapsack-default", "knapsack", "Knapsack()", kind="default", depth=2, keys_quick=1,
        keys_thorough=2, horizon="50"),
     # ---------------- Tetris
@@ -282,6 +287,9 @@ CATALOG: List[Cfg] = [
        horizon="8"),
     _c("cvrp-3-sparse-tight", "cvrp", "CVRP(G.cvrp.UniformGenerator(3, 5, 5), reward_fn=R.cvrp.SparseReward())",
        kind="awkward", keys_quick=2, keys_thorough=8, horizon="6"),
+    # capacity covers the total demand: a single trip serves everybody, the depot is only entered at the end
+    _c("cvrp-3-roomy", "cvrp", "CVRP(G.cvrp.UniformGenerator(3, 30, 5))", kind="awkward", keys_quick=2, keys_thorough=4,
+       horizon="6"),
     _c("cvrp-default", "cvrp", "CVRP()", kind="default", depth=2, keys_quick=1, keys_thorough=2,
        horizon="40"),
     # ---------------- LBF
